@@ -34,6 +34,9 @@ struct ScriptEngine {
 };
 static const uint64_t TWO53 = 1ull << 53;
 static ScriptEngine engOf(uint64_t k) { ScriptEngine e; e.push53(k); return e; }
+// engine whose next two words are the halves of v: the canonical draw is v / 2^64 rounded to double
+// (exactly (v >> 11) / 2^53 when the low 11 bits are zero)
+static ScriptEngine engOfRaw(uint64_t v) { ScriptEngine e; e.w.push_back((uint32_t)(v & 0xffffffffu)); e.w.push_back((uint32_t)(v >> 32)); return e; }
 // value std::uniform_real_distribution<double>(a,b) returns for the engine's next words (engine copied)
 static double peek(ScriptEngine e, double a = 0.0, double b = 1.0) { std::uniform_real_distribution<double> d(a, b); return d(e); }
 static uint64_t k53(double u) {          // nearest grid index of u in [0,1), clamped
@@ -108,6 +111,9 @@ static std::vector<uint64_t> sweep(Rng & rng, const std::vector<double> & vals, 
     for (int i = 0; i < nrandom; ++i) ks.push_back(rng.next() >> 11);
     for (int i = 0; i < 2; ++i) ks.push_back(TWO53 - 1 - rng.below(1ull << 33));   // draws in the last 1e-6 of [0,1)
     for (auto & k : ks) if (k >= TWO53) k = TWO53 - 1;
+    for (auto & k : ks) k <<= 11;                                   // grid draws as raw 64-bit values
+    for (int i = 0; i < 2; ++i) ks.push_back(rng.next());           // off-grid draws (finer than 2^-53 below 1/2)
+    ks.push_back(rng.next() >> (unsigned)rng.range(12, 50));        // tiny off-grid draw
     return ks;
 }
 
@@ -119,7 +125,7 @@ static void emit_dense(const std::vector<double> & p, const std::vector<uint64_t
     Line l; l << "C08" << "dense" << (cont == 0 ? "vec" : cont == 1 ? "std" : "row"); l.nums(p); l << (size_t)ks.size();
     std::vector<size_t> res; size_t words = 0;
     for (uint64_t k : ks) {
-        ScriptEngine e = engOf(k);
+        ScriptEngine e = engOfRaw(k);
         l << peek(e);
         size_t r = cont == 0 ? AI::sampleProbability(n, ev, e) : cont == 1 ? AI::sampleProbability(n, p, e) : AI::sampleProbability(n, m.row(1), e);
         res.push_back(r); words += e.pos;
@@ -145,7 +151,7 @@ static void emit_sparse(const std::vector<std::vector<double>> & rows, size_t r,
     l << (size_t)ks.size();
     std::vector<size_t> res; size_t words = 0;
     for (uint64_t k : ks) {
-        ScriptEngine e = engOf(k);
+        ScriptEngine e = engOfRaw(k);
         l << peek(e);
         res.push_back(AI::sampleProbability(n, cm.row(r), e)); words += e.pos;
     }
@@ -158,7 +164,7 @@ static std::vector<uint64_t> below_sum(const std::vector<uint64_t> & ks, const s
     double s = 0; for (double v : row) s += v;
     uint64_t lim = k53(s - 1e-9);
     std::vector<uint64_t> out;
-    for (uint64_t k : ks) if (k < lim) out.push_back(k);
+    for (uint64_t k : ks) if ((k >> 11) + 1 < lim) out.push_back(k);
     return out;
 }
 
@@ -392,7 +398,24 @@ static void emit_sparse_model_witness() {
 // ---------------------------------------------------------------- cases
 static const long kWitness = 14;
 
-long verif::verif_ncases(const std::string & tier) { return kWitness + (tier == "thorough" ? 250000 : 20000); }
+// exhaustive small scope: every vector k/8 with 2..4 entries (zeros anywhere, mass anywhere)
+static std::vector<std::vector<double>> g_small;
+static void build_small() {
+    g_small.clear();
+    for (int n = 2; n <= 4; ++n) {
+        std::vector<int> c(n, 0);
+        std::function<void(int, int)> rec = [&](int i, int left) {
+            if (i == n - 1) { c[i] = left; std::vector<double> p(n); for (int j = 0; j < n; ++j) p[j] = c[j] / 8.0; g_small.push_back(p); return; }
+            for (int k = 0; k <= left; ++k) { c[i] = k; rec(i + 1, left - k); }
+        };
+        rec(0, 8);
+    }
+}
+
+long verif::verif_ncases(const std::string & tier) {
+    build_small();
+    return kWitness + (long)g_small.size() + (tier == "thorough" ? 250000 : 20000);
+}
 
 static void witness(Rng & rng, long idx) {
     const double e21 = std::ldexp(1.0, -21);
@@ -404,7 +427,7 @@ static void witness(Rng & rng, long idx) {
         case 4: emit_proj({0.5, -1.0, 0.5}); break;                              // sum ~ 1 with a negative entry
         case 5: {                                                                // sparse: draw above the row sum, row is not the last one
             std::vector<std::vector<double>> rows{{0.5, 0.5 - e21, 0.0}, {0.0, 0.0, 1.0}};
-            emit_sparse(rows, 0, {TWO53 - 1, k53(1.0 - e21), k53(1.0 - e21) - 1, 0}); break;
+            emit_sparse(rows, 0, {(TWO53 - 1) << 11, k53(1.0 - e21) << 11, (k53(1.0 - e21) - 1) << 11, 0}); break;
         }
         case 6: emit_vose(rng, {0.75, 0.25}, 8); break;                          // first entry above average
         case 7: emit_vose(rng, {0.5, 0.25, 0.25}, 8); break;                     // the property text's example
@@ -415,7 +438,7 @@ static void witness(Rng & rng, long idx) {
         case 13: {                                                               // sparse: the same draw on the LAST stored row: the scan leaves the arrays
             std::vector<std::vector<double>> rows{{0.5, 0.5 - e21, 0.0}};
             std::printf("#stat sparse_last_row_above_sum 1\n"); std::fflush(stdout);
-            emit_sparse(rows, 0, {TWO53 - 1}); break;
+            emit_sparse(rows, 0, {(TWO53 - 1) << 11}); break;
         }
         default: emit_rand({}); break;                                           // S = 1
     }
@@ -423,6 +446,19 @@ static void witness(Rng & rng, long idx) {
 
 void verif::verif_case(Rng & rng, long idx, const std::string & tier) {
     if (idx < kWitness) { witness(rng, idx); return; }
+    if (idx < kWitness + (long)g_small.size()) {
+        const auto & p = g_small[idx - kWitness];
+        std::printf("#stat small_scope 1\n");
+        emit_dense(p, sweep(rng, p, 2), (int)(idx % 3));
+        std::vector<std::vector<double>> rows{p, std::vector<double>(p.size(), 0.0)};
+        rows[1][p.size() - 1] = 1.0;
+        emit_sparse(rows, 0, sweep(rng, p, 2));
+        emit_vose(rng, p, 4);
+        emit_proj(p);
+        emit_isprob(p);
+        return;
+    }
+    idx -= (long)g_small.size();
     const bool thorough = tier == "thorough";
     const size_t maxN = thorough ? 64 : 12;
     int fam = (int)((idx - kWitness) % 9);
